@@ -266,7 +266,7 @@ func runClientCache(c *Ctx) error {
 					r = "ok full sid=~" // full handshake attempted and failed (broken connection)
 				}
 				log(fmt.Sprintf("chs tag=%s addr=%s cmd=%s answer=%s req=%s full=%s", strOrTilde(t.tag), t.addr, t.cmd, answer, b01(req), full), r)
-			case k == 6 && len(sids) > 0 && c.Rng.Intn(2) == 0:
+			case k == 6 && len(sids) > 0 && c.Rng.Intn(3) != 0:
 				// a handshake that names a cached session by id (the pre-registered / claim-session
 				// path) under an arbitrary (tag, server, command): it resumes that session whatever the
 				// triple is, and must leave the routes alone — no later ordinary handshake for this
@@ -278,15 +278,48 @@ func runClientCache(c *Ctx) error {
 				if _, found := security.GetSessionCache().LookupNonExpired(sid); !found {
 					answer = "sidNotFound"
 				}
-				neg, resumed, err := ccHandshake(cache, t, nil, false, false, sid, security.SecurityPreferred)
+				// the client's own authentication policy varies here too: under REQUIRED a session that
+				// was established without authentication must not be ridden by naming its id either
+				// (the client refuses locally, the cached session stays as it is)
+				cidAuth := pick(c, []security.SecurityLevel{security.SecurityPreferred, security.SecurityNever, security.SecurityRequired, security.SecurityRequired})
+				cidReq := cidAuth == security.SecurityRequired
+				if cidReq {
+					// prefer a session that was established without authentication, when there is one
+					var un []string
+					for _, x := range sids {
+						if !authOf[x] {
+							un = append(un, x)
+						}
+					}
+					if len(un) > 0 && c.Rng.Intn(4) != 0 {
+						sid = pick(c, un)
+						_, clientHas = cache.LookupNonExpired(sid)
+						answer = "authorized"
+						if _, found := security.GetSessionCache().LookupNonExpired(sid); !found {
+							answer = "sidNotFound"
+						}
+					}
+				}
+				refusedLocally := cidReq && clientHas && !authOf[sid]
+				if cidReq {
+					c.Count("op:explicit-sid-required")
+				}
+				if refusedLocally {
+					c.Count("op:explicit-sid-required-unauthenticated-session")
+				}
+				neg, resumed, err := ccHandshake(cache, t, nil, false, false, sid, cidAuth)
 				var sre *security.SessionResumptionError
 				r := "ok other"
 				switch {
 				case err == nil && resumed:
 					r = "ok resumed sid=" + neg.SessionId
+					if cidReq && !authOf[neg.SessionId] {
+						c.Violate(Violation{Property: "C03", Key: "C03:client-explicit-sid-resumed-unauthenticated-under-required", What: "a client whose policy marks authentication REQUIRED returned success by resuming, through an explicit SessionID, a session that was established without authentication",
+							Ops: append(append([]string{}, ops...), fmt.Sprintf("# handshake SessionID=%s tag=%q addr=%s cmd=%s Authentication=REQUIRED", sid, t.tag, t.addr, t.cmd)), Expected: "SessionResumptionError (the caller performs a full handshake, in which authentication runs)", Observed: fmt.Sprintf("resumed %s, Authentication=%v", neg.SessionId, neg.Authentication)})
+					}
 				case errors.As(err, &sre):
 					r = "ok resume-failed sid=" + sre.SessionID
-					if clientHas {
+					if clientHas && !refusedLocally {
 						// the server refused a session the client held: it is dropped with its routes
 						for tt, x := range ref {
 							if x == sid {
@@ -296,7 +329,7 @@ func runClientCache(c *Ctx) error {
 					}
 				}
 				c.Count("op:explicit-sid")
-				log(fmt.Sprintf("cid sid=%s answer=%s", sid, answer), r)
+				log(fmt.Sprintf("cid sid=%s answer=%s req=%s", sid, answer, b01(cidReq)), r)
 			case k == 6 && len(sids) > 0: // server restart: forgets everything
 				security.ClearSessionCache()
 				log("# server restart", "")
